@@ -244,7 +244,11 @@ def run_check(spec, tier):
     log = {}
     known = load_known()
     violations = []     # (replay_path, no_input_found)
-    known_lines = []
+    # every recorded, unrepaired finding of this property is announced on every run (the defect is in the tree whether or not
+    # this run's sample happens to hit it, e.g. the rare store race K6); the evidence says which ones this run observed
+    known_lines = ["KNOWN-FINDING: property=%s %s" % (prop, e["what"]) for e in known
+                   if e.get("property") == prop and e.get("status") == "known"]
+    observed_known = []
     broken = []         # names of theorems / correspondences that no longer check
     os.makedirs(EVID, exist_ok=True)
     for old in glob.glob(os.path.join(BUILD, "%s-*" % prop)):   # work directories of earlier failing runs
@@ -326,6 +330,8 @@ def run_check(spec, tier):
                             line = "KNOWN-FINDING: property=%s %s" % (prop, e["what"])
                             if line not in known_lines:
                                 known_lines.append(line)
+                            if e.get("id") not in observed_known:
+                                observed_known.append(e.get("id"))
                         else:
                             new_findings.append(f)
                     for f in new_findings[:5]:
@@ -361,6 +367,7 @@ def run_check(spec, tier):
                                                  "note": "no failing input was found by the monitors at thorough size"})
             violations.append((path, True))
     finally:
+        log["known_observed"] = observed_known
         evidence = make_evidence(spec, tier, seed, proof, runs_out, log, known_lines, violations, broken, time.time() - t0)
         json.dump(evidence, open(os.path.join(EVID, prop + ".json"), "w"), indent=1)
         if not violations:
@@ -405,6 +412,7 @@ def make_evidence(spec, tier, seed, proof, runs_out, log, known_lines, violation
         "generated_digest": log.get("generated_digest"),
         "generated_changed": log.get("generated_changed"),
         "known_findings_printed": known_lines,
+        "known_findings_observed_in_this_run": log.get("known_observed", []),
         "no_longer_checks": [b["what"] for b in broken],
         "timings": {k: v for k, v in log.items() if k.endswith("_s")},
         "partial": spec.get("partial", ""),
